@@ -1,6 +1,7 @@
 import LP.Driver.Scalar
 import LP.Driver.Interval
 import LP.Driver.FSI
+import LP.Driver.FSet
 import Std.Data.HashMap
 open LP LP.Driver
 
@@ -19,6 +20,7 @@ def checkLine (line : String) : String × String × Verdict :=
         | "qi" => checkQI "qi" op args r
         | "di" => checkQI "di" op args r
         | "fsi" => checkFSI op args r
+        | "fset" => checkFSet op args r
         | _ => Verdict.skip s!"unknown family {fam}"
       (idx, fam, v)
     | _ => ("?", "?", .skip "short line")
